@@ -2,6 +2,7 @@
 membership model over a finite universe plus one fresh name ("every other attribute")."""
 from __future__ import annotations
 
+import copy
 import itertools
 from collections import Counter
 from typing import Any, Dict, FrozenSet, List, Optional, Tuple
@@ -177,7 +178,10 @@ def run_slice(job: dict) -> dict:
                         apiv = ("3.0", "2.2", "2.0")[(k // W // job["world_every"]) % 3]
                         C["world_start_api_" + apiv] += 1
                         spec = {"type": typ, "entities": ["e0"], "ins": {}, "outs": {}, "api_version": apiv,
-                                "model_desc": dict(desc, public=True, params=[])}
+                                "model_desc": dict(desc, public=True, params=[]),
+                                # every other time init() returns a customised copy, not the object kept in self.meta
+                                "meta_is_a_customised_copy": bool((k // W // job["world_every"]) % 2)}
+                        C["world_start_meta_returned_is_not_self_meta"] += int(spec["meta_is_a_customised_copy"])
                         # before: another start from the SAME sim_config entry whose init() returns another
                         # description (a simulator configured by its init parameters) of the same type
                         other = {"attrs": sorted(full - {FRESH}), "any_inputs": False}
@@ -222,6 +226,56 @@ def run_slice(job: dict) -> dict:
             elif False:
                 pass
         # rejected descriptions must also be rejected by world.start (sampled)
+    # ---- one module-level model table, the type chosen per instance: started as T1, then as T2 ----------
+    from .. import stubs
+    k = 0
+    for desc in all_descs(U):
+        k += 1
+        if k % W != w:
+            continue
+        acc = {}
+        for typ in TYPES:
+            try:
+                acc[typ] = expected(desc, typ, full)
+            except Reject:
+                acc[typ] = None
+        if sum(v is not None for v in acc.values()) < 1:
+            continue
+        for t1 in TYPES:
+            if acc[t1] is None:
+                continue
+            for t2 in TYPES:
+                if t2 == t1:
+                    continue
+                stubs.SHARED_MODELS.clear()
+                stubs.SHARED_MODELS["M"] = copy.deepcopy(dict(desc, public=True, params=[]))
+                with warnings.catch_warnings():
+                    warnings.simplefilter("ignore")
+                    world = mosaik.World({"T": {"python": "vlab.stubs:SharedModels"}}, skip_greetings=True)
+                    try:
+                        world.start("T", sim_id="First", typ=t1)
+                        C["shared_model_table_pairs"] += 1
+                        try:
+                            f2 = world.start("T", sim_id="Second", typ=t2)
+                        except ValueError as e2:
+                            if acc[t2] is not None:
+                                viol("world_start_rejected_but_consistent", desc=desc, type=t2, started_before_as=t1,
+                                     shared_model_table=True, error=str(e2)[:200])
+                            continue
+                        if acc[t2] is None:
+                            viol("world_start_accepted_inconsistent", desc=desc, type=t2, started_before_as=t1,
+                                 shared_model_table=True)
+                            continue
+                        g2 = [members(s_, full) for s_ in (f2.M.measurement_inputs, f2.M.event_inputs,
+                                                            f2.M.measurement_outputs, f2.M.event_outputs)]
+                        if g2 != list(acc[t2]):
+                            viol("world_start_classification_differs", desc=desc, type=t2, started_before_as=t1,
+                                 shared_model_table=True, expected=[sorted(s_) for s_ in acc[t2]],
+                                 got=[sorted(s_) for s_ in g2])
+                        if stubs.SHARED_MODELS["M"] != dict(desc, public=True, params=[]):
+                            C["shared_model_table_modified_by_mosaik"] += 1
+                    finally:
+                        world.shutdown()
     # ---- world.start must reject what parse_attrs rejects (sample of rejected) -----------
     k = 0
     for desc in all_descs(U):
@@ -318,11 +372,33 @@ def replay(rep: dict) -> List[dict]:
         from ..build import setup_logging
         setup_logging()
         typ = v["type"]
-        with warnings.catch_warnings():
+        if v.get("shared_model_table"):
+            from .. import stubs
+            stubs.SHARED_MODELS.clear()
+            stubs.SHARED_MODELS["M"] = copy.deepcopy(dict(v["desc"], public=True, params=[]))
+            with warnings.catch_warnings():
+                warnings.simplefilter("ignore")
+                world = mosaik.World({"T": {"python": "vlab.stubs:SharedModels"}}, skip_greetings=True)
+                try:
+                    world.start("T", sim_id="First", typ=v["started_before_as"])
+                    try:
+                        f2 = world.start("T", sim_id="Second", typ=typ)
+                    except ValueError:
+                        return [] if isinstance(exp, Reject) else [v]
+                    if isinstance(exp, Reject):
+                        return [v]
+                    g2 = [members(s_, full) for s_ in (f2.M.measurement_inputs, f2.M.event_inputs,
+                                                        f2.M.measurement_outputs, f2.M.event_outputs)]
+                    return [v] if g2 != list(exp) else []
+                finally:
+                    world.shutdown()
+        for custom in (False, True):
+          with warnings.catch_warnings():
             warnings.simplefilter("ignore")
             world = mosaik.World({"S": {"python": "vlab.sims:ScriptedSim"}}, skip_greetings=True)
             try:
-                base = {"type": typ, "entities": ["e0"], "ins": {}, "outs": {}, "api_version": v.get("api_version", "3.0")}
+                base = {"type": typ, "entities": ["e0"], "ins": {}, "outs": {}, "api_version": v.get("api_version", "3.0"),
+                        "meta_is_a_customised_copy": custom}
                 other = {"attrs": ["a", "b", "c"], "any_inputs": False, "public": True, "params": []}
                 if typ == "hybrid":
                     other["trigger"] = ["a"]
@@ -330,14 +406,18 @@ def replay(rep: dict) -> List[dict]:
                 try:
                     f = world.start("S", sim_id="X", spec=dict(base, model_desc=dict(v["desc"], public=True, params=[])))
                 except ValueError:
-                    return [] if isinstance(exp, Reject) else [v]
+                    if not isinstance(exp, Reject):
+                        return [v]
+                    continue
                 if isinstance(exp, Reject):
                     return [v]
                 gw = [members(s_, full) for s_ in (f.M.measurement_inputs, f.M.event_inputs,
                                                     f.M.measurement_outputs, f.M.event_outputs)]
-                return [v] if gw != list(exp) else []
+                if gw != list(exp):
+                    return [v]
             finally:
                 world.shutdown()
+        return []
     try:
         got = parse_attrs(dict(v["desc"]), v["type"])
     except ValueError:
@@ -362,10 +442,14 @@ def decide(m, tier):
 
 
 def evidence(m, tier, seed):
+    # (world path: see counters world_start_* and shared_model_table_*)
     return {"level": "exploration", "coverage": {
         "rule": "every model description with attrs/trigger/non-trigger/persistent/non-persistent each absent or any "
                 "subset of the universe, any_inputs absent/False/True, for the three simulator types: real "
-                "parse_attrs, and world.start() + connect() through a meta-mirroring simulator, against a "
+                "parse_attrs, and world.start() + connect() through a meta-mirroring simulator (announcing API 3.0/2.2/2.0; after another "
+                "description was started from the same sim_config entry; with init() returning a customised copy instead of "
+                "self.meta), and through a simulator class with one module-level model table started first as one type, then "
+                "as another (all ordered pairs), against a "
                 "declarative partition solver evaluated by membership over universe + one fresh name; every "
                 "OutSet/frozenset operand pair for | & - == and 'in'; distinct_nontrivial = distinct accepted "
                 "(description, type) pairs",
